@@ -47,6 +47,12 @@ def _log(v):
     return math.log(v)
 
 
+def _round0(v):
+    """round half to even, keeping the sign of a zero result (as numpy.round does: the emitted text distinguishes -0.0 and 0.0)"""
+    r = float(round(v))
+    return math.copysign(0.0, v) if r == 0 else r
+
+
 NAMED = {
     '_tr_sqrt': lambda x, c: math.sqrt(x) if x >= 0 else float('nan'),
     '_tr_log(x+1)': lambda x, c: _log(x + 1),
@@ -57,7 +63,7 @@ NAMED = {
     '_tr_log*sqrt': lambda x, c: (_log(x + 1) * math.sqrt(x)) if x >= 0 else float('nan'),
     '_tr_log*100': lambda x, c: float(round(_log(x + 1) * 100)) if x > -1 else (float('-inf') if x == -1 else float('nan')),
     '_tr_nonzero': lambda x, c: 1.0 if x != 0 else 0.0,
-    '_tr_round(div(x,max))': lambda x, c: float(round(x / c['max'])) if c['max'] != 0 else float('nan'),
+    '_tr_round(div(x,max))': lambda x, c: _round0(x / c['max']) if c['max'] != 0 else (float('nan') if x == 0 else math.copysign(float('inf'), x)),      # IEEE division by a zero maximum
 }
 
 
@@ -234,7 +240,9 @@ def main():
 
     # ---- (4) named formulas of minimal / default on adversarial inputs
     grids = [['-3', '-1', '0', '', '1', '2', '7', '100', '1e300', '0.5', '-0.25', '12', '3', '"4"'],
-             ['0', '0', '1', '5', '9', '', '2', '1e-300', '30', '-7', '8', '64']]
+             ['0', '0', '1', '5', '9', '', '2', '1e-300', '30', '-7', '8', '64'],
+             ['-3', '-1', '0', '', '-2', '0', '-7', '', '-1', '-12', '0', '-0.5'],            # no positive value: the column maximum is 0
+             ['-5', '-5', '-1', '-2', '-9', '-3', '-30', '-7']]                                 # all negative
     for gi, grid in enumerate(grids):
         for preset in ('minimal', 'default'):
             r_ = PC.pipe_eval([{'op': 'transform_columns', 'items': [{'values': grid, 'preset': preset}]}], modules=['sketch_ops'])[0]
@@ -255,6 +263,22 @@ def main():
                     if not same(float(txt), e):
                         V.violation(f'formula:{tname}:x={s_in!r}', f'{col} = {txt} for input {s_in!r}; the named formula gives {e!r}', {'values': grid, 'column': col})
                         break
+            # the emission rule, judged on the text of the harness's own evaluation of each named formula of the preset
+            import numpy as _np
+            for tname in vault[preset]:
+                if tname not in NAMED:
+                    continue
+                f = _nan_guard(NAMED[tname])
+                with _np.errstate(all='ignore'):
+                    texts = _np.array([f(x, ctx) for x in xs], dtype=float).astype(str)
+                u_, c_ = _np.unique(texts, return_counts=True)
+                share = c_.max() / c_.sum()
+                nanp = float((texts == 'nan').sum()) / len(texts)
+                if abs(share - 0.8) < 1e-9 or abs(nanp - 0.75) < 1e-9:
+                    continue
+                keep = len(u_) > 1 and share < 0.8 and nanp < 0.75
+                if keep != (('x' + tname) in ob['new']):
+                    V.violation(f'keep-rule:named:{preset}:{tname}:grid{gi}', f'column x{tname} was {"emitted" if not keep else "dropped"}; the named formula on {grid} gives {sorted(set(texts.tolist()))[:6]} ({len(u_)} distinct, majority {share:.2f}, NaN {nanp:.2f}) -> {"emit" if keep else "drop"}', {'values': grid, 'preset': preset})
             V.count(evaluations=len(ob['new']) * len(grid), nontrivial=len(ob['new']), traces=len(ob['new']))
     V.coverage['exhaustive'] = True
     return V.finish()
